@@ -22,7 +22,7 @@ class Out:
         self.nsamples = 0
 
     def case(self, key, nontrivial=True, sample=None):
-        if sample is not None and self.nsamples >= 3:
+        if sample is not None and self.nsamples >= 1:
             sample = None
         if sample is not None:
             self.nsamples += 1
@@ -185,12 +185,18 @@ def check_problem(P, job):
     digest_only = job.get('digest_only', False)
     det = {'form': P.form, 'codes': prob['codes'], 'comps': [P.nc0, P.nc1]}
 
-    # the fixed operator: fresh object, one thread, unsymmetric, csr, blocked
+    # the fixed operator: fresh object, one thread, unsymmetric, csr, blocked (for vector forms, should that path
+    # raise, the packed/bsr path through the spec's permutation, so that the other configurations are still judged)
     pyiga.set_max_threads(1)
-    try:
-        ref = assemble.assemble_entries(P.make(), symmetric=False, format='csr', layout='blocked').toarray()
-    except Exception as ex:
-        OUT.exception(ex, 'reference', det)
+    ref = None
+    for rcfg in [dict(sym=False, fmt='csr', lay='blocked')] + ([dict(sym=False, fmt='bsr', lay='packed')] if P.vec else []):
+        try:
+            A = assemble.assemble_entries(P.make(), symmetric=False, format=rcfg['fmt'], layout=rcfg['lay'])
+            ref = blocked_view(P, A.toarray(), rcfg)
+            break
+        except Exception as ex:
+            OUT.exception(ex, path_of(P, rcfg), dict(det, cfg=rcfg, what='reference'))
+    if ref is None:
         return
     scale = max(1.0, float(abs(ref).max()))
     mask = expected_mask(P)
@@ -208,9 +214,10 @@ def check_problem(P, job):
     for cfg in prob['cfgs']:
         if cfg['sym'] and not P.F['sym']:
             continue
-        cid = 'sym=%s fmt=%s lay=%s' % (cfg['sym'], cfg['fmt'], cfg['lay'])
-        cdet = dict(det, cfg=cfg)
         path = path_of(P, cfg)
+        # signature: the code path (entries | bsr | kernel + layout), not the output format derived from it
+        cid = 'sym=%s path=%s%s' % (cfg['sym'], path, '/' + cfg['lay'] if path == 'kernel' else '')
+        cdet = dict(det, cfg=cfg)
         key = P.key + (cfg['sym'], cfg['fmt'], cfg['lay'])
         first = None
         ok = True
@@ -357,6 +364,46 @@ def check_anchor(P):
     OUT.case(list(P.key) + ['anchor'])
 
 
+def check_functional(P):
+    """shipped linear functionals (arity 1): assemble_vector == multi_entries == entry1, whatever the options/threads"""
+    import pyiga
+    from pyiga import assemble, assemblers
+    cls = getattr(assemblers, 'L2FunctionalAssembler%dD' % P.d)
+    f = field_f(P.d, 1)
+    det = {'form': cls.__name__, 'codes': P.prob['codes']}
+    try:
+        pyiga.set_max_threads(1)
+        asm = cls(P.kvs, P.geo, f)
+        ref = np.asarray(assemble.assemble_entries(asm))
+        shape = tuple(kv.numdofs for kv in P.kvs)
+        if ref.shape != shape:
+            OUT.violation('functional-shape d=%d' % P.d, dict(det, shape=list(ref.shape)))
+            return
+        N = int(np.prod(shape))
+        for t in (16, 2, 1):
+            pyiga.set_max_threads(t)
+            for kw in (dict(), dict(symmetric=True, format='csc', layout='packed')):
+                v = np.asarray(assemble.assemble_entries(asm, **kw))
+                if v.tobytes() != ref.tobytes():
+                    OUT.violation('functional-differs d=%d' % P.d, dict(det, threads=t, options=kw))
+            w = np.asarray(asm.multi_entries(np.arange(N)))
+            if w.tobytes() != ref.ravel().tobytes():
+                OUT.violation('functional-multi_entries-differs d=%d' % P.d, dict(det, threads=t))
+        for rs in P.prob['rowsets']:
+            R = np.array(rs['R'], dtype=np.uintp)
+            w = np.asarray(asm.multi_entries(R))
+            if w.tobytes() != ref.ravel()[R.astype(int)].tobytes():
+                OUT.violation('functional-subset-differs d=%d' % P.d, dict(det, rows=rs['R'][:8]))
+        if abs(asm.entry1(N - 1) - ref.ravel()[N - 1]) != 0.0:
+            OUT.violation('functional-entry1-differs d=%d' % P.d, det)
+        v2 = np.asarray(assemble.assemble(cls, P.kvs, geo=P.geo, f=f))
+        if v2.tobytes() != ref.tobytes():
+            OUT.violation('functional-fresh-differs d=%d' % P.d, det)
+    except Exception as ex:
+        OUT.exception(ex, 'functional', det)
+    OUT.case(['functional', P.d, P.prob['codes']])
+
+
 # ----------------------------------------------------------------------------------------------------------
 # thorough: update sequences, on-demand bounding boxes
 
@@ -384,6 +431,7 @@ def check_updates(P, hists):
             for step, h in enumerate(hist):
                 if h['op'] == 'f':
                     if (n + step) % 2 == 0:
+                        pending = {}                             # superseded before it was ever passed on
                         W.update(f=field_f(P.d, h['v']))
                     else:
                         pending['f'] = field_f(P.d, h['v'])      # passed to the next assemble(**upd_fields)
@@ -465,9 +513,11 @@ def main():
                 continue
             try:
                 check_problem(P, job)
-                if form == 'mass' and not job.get('digest_only') and P.d not in anchored:
-                    anchored.add(P.d)
-                    check_anchor(P)
+                if form == 'mass' and not job.get('digest_only'):
+                    check_functional(P)
+                    if P.d not in anchored:
+                        anchored.add(P.d)
+                        check_anchor(P)
                 if job.get('hists') and FORMS[form].get('params') and not job.get('digest_only'):
                     check_updates(P, job['hists'])
             except Exception as ex:       # e.g. a result of unexpected type/shape: the real code's fault, not ours
